@@ -3,6 +3,7 @@ import os
 import io
 import sys
 import shutil
+import re
 import numpy as np
 from .. import scope, vpool, audit, faults, chkmodel
 from ..common import build, exc_text
@@ -328,7 +329,7 @@ class Env(object):
         shutil.rmtree(self.root, ignore_errors=True)
 
 
-def execute(case, env, fail_at=None, breakage=None, opt_index=None):
+def execute(case, env, fail_at=None, breakage=None, opt_index=None, fail_read_at=None):
     """one execution of the tool; returns dict(outcome, events, points, snapshot_ok, fired)"""
     name = case["tool"]
     fn, kind, two, outmodes, opts, broken = TOOLS[name]
@@ -404,7 +405,7 @@ def execute(case, env, fail_at=None, breakage=None, opt_index=None):
     try:
         with vpool.controlled():
             with audit.recording() as ev:
-                with faults.injecting(fail_at) as st:
+                with faults.injecting(fail_at, read_roots=env.inputs, fail_read_at=fail_read_at) as st:
                     try:
                         fn(P, P2, out, opt)
                         outcome = ("ok", "")
@@ -414,6 +415,7 @@ def execute(case, env, fail_at=None, breakage=None, opt_index=None):
                     except Exception as e:
                         outcome = ("fail", exc_text(e))
     finally:
+        printed = sys.stdout.getvalue()
         sys.stdout = oldout
         os.chdir(env.root)
     snap_ok = [audit.snapshot(p) for p in env.inputs] == snaps
@@ -424,8 +426,14 @@ def execute(case, env, fail_at=None, breakage=None, opt_index=None):
         allowed = default_prefixes(name, env, os.path.realpath(cwd), opt)
     lib = os.path.realpath(os.environ.get("MPLCONFIGDIR", "/nonexistent"))
     ev = [(e, p) for e, p in ev if not audit.inside(p, lib)]
-    digest = output_digest(allowed) if name not in NO_OUTPUT else (None, 0)
-    return {"outcome": outcome, "events": list(ev), "points": st.n, "fired": st.fired, "snap_ok": snap_ok,
+    if name not in NO_OUTPUT:
+        digest = output_digest(allowed)
+    else:
+        # tools without an output path answer on standard output (elapsed times and the scratch root removed)
+        import hashlib
+        txt = re.sub(r"\(\s*[0-9.eE+-]+\s*s?\s*\)", "()", printed.replace(os.path.realpath(env.root), "<root>").replace(env.root, "<root>"))
+        digest = (hashlib.sha1(txt.encode()).hexdigest(), 0)
+    return {"outcome": outcome, "events": list(ev), "points": st.n, "rpoints": st.rn, "fired": st.fired, "snap_ok": snap_ok,
             "allowed": allowed, "out_abs": out_abs, "digest": digest,
             "roots": [os.path.realpath(os.path.dirname(env.p1)), os.path.realpath(cwd)]}
 
@@ -568,7 +576,19 @@ def run_case(case, workdir):
                                    % (k, r0["points"]))
             judge(rec, case, sub2, env, r, must_fail=True, good_digest=r0["digest"])
             env.remove()
-    rec.sample({"tool": name, "outmode": case["outmode"], "pathform": case["pathform"], "write_points": r0["points"],
+    # unreadable input: EACCES at every individual open-for-reading of a file inside an input tree
+    if case["faults"] and r0["outcome"][0] == "ok" and r0["rpoints"] > 0:
+        for k in range(1, r0["rpoints"] + 1):
+            env = Env(workdir, kind, seed, "r%d" % k, case.get("names", 0))
+            r = execute(case, env, fail_read_at=k)
+            sub2 = dict(sub, run="read_fault", fail_read_at=k, point=r["fired"])
+            rec.exe(key + ["read_fault", k], nontrivial=True)
+            if r["fired"] is None:
+                raise RuntimeError("harness: read point %d of %d never reached on replay (nondeterministic read sequence)"
+                                   % (k, r0["rpoints"]))
+            judge(rec, case, sub2, env, r, must_fail=True, good_digest=r0["digest"])
+            env.remove()
+    rec.sample({"tool": name, "outmode": case["outmode"], "pathform": case["pathform"], "write_points": r0["points"], "read_points": r0["rpoints"],
                 "plain_outcome": list(r0["outcome"])})
     return rec.result()
 
